@@ -33,3 +33,8 @@ func (el *EventList) VerifFlags() (verified bool, hasErr bool, product *big.Int)
 func VerifNewWitness(sk *gabikeys.PrivateKey, acc *Accumulator, e *big.Int) (*Witness, error) {
 	return newWitness(sk, acc, e)
 }
+
+// VerifState exposes the secrets and randomizers of a non-revocation proof commitment.
+func (c *ProofCommit) VerifState() (cu, cr, nu *big.Int, secrets, randomizers map[string]*big.Int, sacc *SignedAccumulator) {
+	return c.cu, c.cr, c.nu, c.secrets, c.randomizers, c.sacc
+}
